@@ -1,6 +1,8 @@
 (* drv_visit.ml — visitor domain (C17).  Line: "<tree in jvtext> <schedule>" where the
    schedule is "-" or a comma-separated list of ints: the value the callback returns for
-   the 1st, 2nd, … call (0 = CONTINUE once it is exhausted).
+   the 1st, 2nd, … call (0 = CONTINUE once it is exhausted); or a program of several
+   traversals, see harness/drv_visit.c (then "T<i> …" segments joined by " || ", each step
+   with a sixth token "own": the model has no way to hand a callback a foreign argument).
    Observation: one step per call, "<path> <flags> <parent> <key|index> <depth>", then
    "ret <r>".  path = "/" for the root, "/i/j" = j-th child of the i-th child of the root;
    runs of equal components are written once, "/0^1000/1";
@@ -34,27 +36,60 @@ let ev_str e =
 
 let show (calls, ret) = String.concat " | " (List.rev (("ret " ^ string_of_z ret) :: List.rev_map ev_str calls))
 
+(* the callback as a function of the history (newest first): the n-th call gets codes.(n-1).
+   n = List.length hist; the length of the previous history is remembered so that the usual
+   case (the history grew by one call) costs O(1) on large trees *)
+let sched_callback codes =
+  let last = ref ([], 0) in
+  fun hist ->
+    let n = match hist with
+      | _ :: t when t == fst !last -> snd !last + 1
+      | _ -> List.length hist in
+    last := (hist, n);
+    if n - 1 < Array.length codes then codes.(n - 1) else Z0
+
+let codes_of sched = if sched = "-" then [] else List.map z_of_string (split_on ',' sched)
+
+(* line := PROG { ";" PROG };  PROG := TREE SCHED { "(" K PROG ")" };  TREE "=" = the tree of the
+   enclosing traversal *)
+let rec parse_prog parent toks =
+  match toks with
+  | tree :: sched :: rest ->
+    let v = if tree = "=" then (match parent with Some v -> v | None -> failwith "= at top level")
+            else Jvtext.jv_of_string tree in
+    let rec nested acc = function
+      | "(" :: k :: rest ->
+        let (q, rest) = parse_prog (Some v) rest in
+        (match rest with ")" :: rest -> nested ((z_of_string k, q) :: acc) rest | _ -> failwith "visit: )")
+      | rest -> (List.rev acc, rest) in
+    let (ns, rest) = nested [] rest in
+    (Prog (v, codes_of sched, ns), rest)
+  | _ -> failwith "visit line"
+
 let run line =
   match split_on ' ' line with
   | [tree; sched] ->
     let v = Jvtext.jv_of_string tree in
-    let codes = if sched = "-" then [||] else Array.of_list (List.map z_of_string (split_on ',' sched)) in
-    (* the callback as a function of the history (newest first): the n-th call gets codes.(n-1).
-       n = List.length hist; the length of the previous history is remembered so that the usual
-       case (the history grew by one call) costs O(1) on large trees *)
-    let last = ref ([], 0) in
-    let userfunc hist =
-      let n = match hist with
-        | _ :: t when t == fst !last -> snd !last + 1
-        | _ -> List.length hist in
-      last := (hist, n);
-      if n - 1 < Array.length codes then codes.(n - 1) else Z0 in
+    let userfunc = sched_callback (Array.of_list (codes_of sched)) in
     let model = show (json_c_visit userfunc v) in
     (* the extracted reference traversal is run alongside as a cross-check of the glue (the
        theorem says they agree); skipped on the large size-family inputs to halve their cost *)
     if String.length tree > 1500 then model else
     let spec = show (spec_visit userfunc v) in
     if model <> spec then "SPEC-MISMATCH " ^ model ^ " <> " ^ spec else model
-  | _ -> failwith "visit line"
+  | toks ->
+    (* several traversals: the extracted [run_progs] *)
+    let rec progs toks =
+      let (p, rest) = parse_prog None toks in
+      match rest with [] -> [p] | ";" :: rest -> p :: progs rest | _ -> failwith "visit: ;" in
+    let ps = progs toks in
+    let showp outs = String.concat " || " (List.mapi (fun i o ->
+        Printf.sprintf "T%d %s" i (match o with
+          | None -> "notrun"
+          | Some (calls, ret) ->
+            String.concat " | " (List.map (fun e -> ev_str e ^ " own") calls @ ["ret " ^ string_of_z ret]))) outs) in
+    let model = showp (run_progs ps) in
+    let spec = showp (List.concat_map spec_prog ps) in
+    if model <> spec then "SPEC-MISMATCH " ^ model ^ " <> " ^ spec else model
 
 let () = register "visit" run
